@@ -58,8 +58,14 @@ func New(options ...VMOption) *VM {
 func (v *VM) btErr(r any) error {
 	bt := v.backtrace
 	var lines []string
-	i := v.frame.Codes[v.frame.N]
-	lines = append(lines, fmt.Sprintf("%v: %v: %v", i.Pos.String(v.globals), i.Code, r))
+	if v.frame.N < len(v.frame.Codes) && !v.frame.Codes[v.frame.N].Pos.IsZero() {
+		i := v.frame.Codes[v.frame.N]
+		lines = append(lines, fmt.Sprintf("%v: %v: %v", i.Pos.String(v.globals), i.Code, r))
+	} else {
+		// the failure is not tied to an instruction with a source position (a call made by the host, or a
+		// function that has run past its last instruction)
+		lines = append(lines, fmt.Sprint(r))
+	}
 	for n := len(bt) - 1; n >= 0; n-- {
 		pos := bt[n]
 		if pos == 0 {
